@@ -90,12 +90,12 @@ def configs(tier):
 
 
 def snap_array(m, a):
-    comps = list(a._xyz.values()) if hasattr(a, "_xyz") else [a]
+    comps = list(C.vcomps(a).values()) if C.is_vec(a) else [a]
     return (id(a), a.name, str(a.unit), [m.vals(c._array) for c in comps], [id(c._array) for c in comps])
 
 
 def same_array(m, a, s):
-    comps = list(a._xyz.values()) if hasattr(a, "_xyz") else [a]
+    comps = list(C.vcomps(a).values()) if C.is_vec(a) else [a]
     return id(a) == s[0] and a.name == s[1] and str(a.unit) == s[2] and len(comps) == len(s[3]) and \
         all(C.same_terms(m, m.vals(c._array), t) for c, t in zip(comps, s[3])) and [id(c._array) for c in comps] == s[4]
 
